@@ -293,12 +293,18 @@ void OPNMIDIplay::realTime_ResetState()
     {
         MIDIchannel &chan = m_midiChannels[ch];
         chan.resetAllControllers();
+        // A song (re)starts with the default program and bank on every channel
+        chan.patch = 0;
+        chan.bank_lsb = 0;
+        chan.bank_msb = 0;
         chan.vibpos = 0.0;
         chan.lastlrpn = 0;
         chan.lastmrpn = 0;
         chan.nrpn = false;
         if((m_synthMode & Mode_GS) != 0)// Reset custom drum channels on GS
             chan.is_xg_percussion = false;
+        else // The drum role follows the (now default) bank
+            chan.is_xg_percussion = isXgPercChannel(chan.bank_msb, chan.bank_lsb);
         noteUpdateAll(uint16_t(ch), Upd_All);
         noteUpdateAll(uint16_t(ch), Upd_Off);
     }
